@@ -175,6 +175,9 @@ class Explorer:
         return None
 
     def ev(self, e, env):
+        sub = getattr(self, "_subst", None)
+        if sub and id(e) in sub:
+            return sub[id(e)]
         k = self.key_of(e)
         if k is not None and k in env:
             return env[k]
@@ -606,6 +609,36 @@ class Explorer:
         st = node.ast
         if node.kind != "stmt":
             return env
+        # an element taken out of a tracked sequence inside a larger expression (`acc.append(lines.pop(0))`): take it
+        # out first, then evaluate the statement with the taken value in its place
+        if isinstance(st, (ast.Expr, ast.Assign, ast.AugAssign)) and not (isinstance(st, ast.Assign) and isinstance(st.value, ast.Call) and isinstance(st.value.func, ast.Attribute)
+                                                                          and st.value.func.attr in ("pop", "popleft")):
+            inner = [c for c in ast.walk(st) if isinstance(c, ast.Call) and isinstance(c.func, ast.Attribute) and c.func.attr in ("pop", "popleft") and not c.keywords]
+            inner = [c for c in inner if isinstance(env.get(self.key_of(c.func.value) or "", None), tuple)]
+            if len(inner) == 1:
+                c = inner[0]
+                k = self.key_of(c.func.value)
+                seq = env[k]
+                args = [self.ev(a, env) for a in c.args]
+                idx = 0 if c.func.attr == "popleft" else (args[0] if args else -1)
+                if isinstance(idx, int) and not isinstance(idx, bool) and not (c.func.attr == "popleft" and args):
+                    if not seq or not (-len(seq) <= idx < len(seq)):
+                        new = dict(env)
+                        new["__raise__"] = "IndexError"
+                        return new
+                    l = list(seq)
+                    taken = l.pop(idx)
+                    env = dict(env)
+                    env[k] = tuple(l)
+                    self._subst = {id(c): taken}
+                    try:
+                        return self._apply_plain(node, env)
+                    finally:
+                        self._subst = {}
+        return self._apply_plain(node, env)
+
+    def _apply_plain(self, node, env):
+        st = node.ast
         if isinstance(st, ast.Assign) and len(st.targets) == 1 and isinstance(st.targets[0], ast.Name) and isinstance(st.value, ast.Call) \
                 and isinstance(st.value.func, ast.Attribute) and st.value.func.attr in ("pop", "popleft") and not st.value.keywords:
             # `x = seq.popleft()` / `seq.pop()` / `seq.pop(0)` on a tracked sequence: the element is taken out
